@@ -137,11 +137,103 @@ template <unsigned short N, class E> void c_increment_operators(E& e) {
     e.ensure("derivative obligations are symbolic only", e.tru());
   }
 }
+
+// ---- the web of converters: every available conversion R <- S maps the canonical operator of flag S to the canonical operator of
+// flag R. Canonical operators are anchored by their definitions: derivative of the target stress (DS_DF, DTAU_DF, DSIG_DF, DPK1_DF),
+// or the rate form for the rate moduli, with an arbitrary velocity gradient L (dF = L.F):
+//   Truesdell rate of Kirchhoff:  dtau = Cs : sym(L) + L.tau + tau.L^T        (SPATIAL_MODULI; C_TRUESDELL = Cs / J)
+//   Jaumann  rate of Kirchhoff:   dtau = Cj : sym(L) + W.tau - tau.W, W = skew(L)  (C_TAU_JAUMANN; ABAQUS = Cj / J)
+template <unsigned short N, class T, class A, class B, class E>
+void same_op(E& e, const std::string& what, const A& a, const B& b, const unsigned short nr, const unsigned short nc) {
+  for (unsigned short i = 0; i < nr; ++i) for (unsigned short j = 0; j < nc; ++j) e.ensure(what + ij(i, j), e.eq(a(i, j), b(i, j)));
+}
+template <unsigned short N, class E> void c_web(E& e) {
+  using T = typename E::real;
+  if constexpr (E::can_differentiate) {
+    Hyper<N, E> h(e);
+    const auto F = sym_tensor<N>(e, "F");
+    const T J = det(F);
+    e.require(e.lt(T(0), J));
+    const tensor<N, T> F0 = tensor<N, T>::Id();
+    const stensor<N, T> S = h.S_of_E(computeGreenLagrangeTensor(F));
+    const stensor<N, T> sig = convertSecondPiolaKirchhoffStressToCauchyStress(S, F);
+    const stensor<N, T> tau = J * sig;
+    const tensor<N, T> P = convertCauchyStressToFirstPiolaKirchhoffStress(sig, F);
+    const unsigned short ns = S.size(), nt = F.size();
+    // canonical operators (first route from DS_DEGL)
+    const st2tost2<N, T> X_degl = h.D;
+    const st2tost2<N, T> X_dc = convert<TO::DS_DC, TO::DS_DEGL>(h.D, F0, F, sig);
+    const st2tost2<N, T> X_sm = convert<TO::SPATIAL_MODULI, TO::DS_DEGL>(h.D, F0, F, sig);
+    const st2tost2<N, T> X_tr = convert<TO::C_TRUESDELL, TO::DS_DEGL>(h.D, F0, F, sig);
+    const st2tost2<N, T> X_abq = convert<TO::ABAQUS, TO::DS_DEGL>(h.D, F0, F, sig);
+    const st2tost2<N, T> X_cj = convert<TO::C_TAU_JAUMANN, TO::ABAQUS>(X_abq, F0, F, sig);
+    const t2tost2<N, T> X_dsdf = convert<TO::DS_DF, TO::DS_DEGL>(h.D, F0, F, sig);
+    const t2tost2<N, T> X_dtau = convert<TO::DTAU_DF, TO::DS_DF>(X_dsdf, F0, F, sig);
+    const t2tost2<N, T> X_dsig = convert<TO::DSIG_DF, TO::DS_DEGL>(h.D, F0, F, sig);
+    const t2tot2<N, T> X_dpk1 = convert<TO::DPK1_DF, TO::DS_DEGL>(h.D, F0, F, sig);
+    // anchors: derivatives
+    for (unsigned short i = 0; i < ns; ++i) for (unsigned short j = 0; j < nt; ++j) {
+      e.ensure("anchor DS_DF" + ij(i, j) + "=dS_i/dF_j", e.eq(X_dsdf(i, j), e.d(S[i], F[j])));
+      e.ensure("anchor DTAU_DF (via DS_DF)" + ij(i, j) + "=dtau_i/dF_j", e.eq(X_dtau(i, j), e.d(tau[i], F[j])));
+      e.ensure("anchor DSIG_DF" + ij(i, j) + "=dsigma_i/dF_j", e.eq(X_dsig(i, j), e.d(sig[i], F[j])));
+    }
+    for (unsigned short i = 0; i < nt; ++i) for (unsigned short j = 0; j < nt; ++j)
+      e.ensure("anchor DPK1_DF" + ij(i, j) + "=dP_i/dF_j", e.eq(X_dpk1(i, j), e.d(P[i], F[j])));
+    // anchors: rate forms with an arbitrary velocity gradient
+    {
+      const auto L = sym_tensor<N>(e, "L");
+      const tensor<N, T> dF = L * F;
+      stensor<N, T> dtau;
+      for (unsigned short i = 0; i < ns; ++i) { dtau[i] = T(0); for (unsigned short j = 0; j < nt; ++j) dtau[i] = dtau[i] + e.d(tau[i], F[j]) * dF[j]; }
+      const auto mL = Tm<N, T>(L);
+      const auto mtau = M<N, T>(e, tau);
+      const auto mW = scale(T(1) / T(2), sub(mL, tr(mL)));
+      const stensor<N, T> D = syme(L);
+      const stensor<N, T> cs_d = X_sm * D;
+      const stensor<N, T> cj_d = X_cj * D;
+      ensure_mat_eq(e, "anchor SPATIAL_MODULI: dtau = Cs:D + L.tau + tau.L^T", M<N, T>(e, dtau), add(M<N, T>(e, cs_d), add(mul(mL, mtau), mul(mtau, tr(mL)))));
+      ensure_mat_eq(e, "anchor C_TAU_JAUMANN: dtau = Cj:D + W.tau - tau.W", M<N, T>(e, dtau), add(M<N, T>(e, cj_d), sub(mul(mW, mtau), mul(mtau, mW))));
+    }
+    for (unsigned short i = 0; i < ns; ++i) for (unsigned short j = 0; j < ns; ++j) {
+      e.ensure("anchor C_TRUESDELL = SPATIAL_MODULI / J" + ij(i, j), e.eq(X_tr(i, j) * J, X_sm(i, j)));
+      e.ensure("anchor ABAQUS = C_TAU_JAUMANN / J" + ij(i, j), e.eq(X_abq(i, j) * J, X_cj(i, j)));
+    }
+    // the web: every other available converter
+#define WEB(R, S, XR, XS, NR, NC) same_op<N, T>(e, #R "<-" #S, convert<TO::R, TO::S>(XS, F0, F, sig), XR, NR, NC)
+    WEB(DS_DEGL, DS_DC, X_degl, X_dc, ns, ns);
+    WEB(DS_DEGL, SPATIAL_MODULI, X_degl, X_sm, ns, ns);
+    WEB(DS_DF, DS_DC, X_dsdf, X_dc, ns, nt);
+    WEB(ABAQUS, SPATIAL_MODULI, X_abq, X_sm, ns, ns);
+    WEB(DSIG_DF, C_TRUESDELL, X_dsig, X_tr, ns, nt);
+    WEB(SPATIAL_MODULI, ABAQUS, X_sm, X_abq, ns, ns);
+    WEB(C_TRUESDELL, SPATIAL_MODULI, X_tr, X_sm, ns, ns);
+    WEB(SPATIAL_MODULI, C_TRUESDELL, X_sm, X_tr, ns, ns);
+    WEB(DSIG_DF, DTAU_DF, X_dsig, X_dtau, ns, nt);
+    WEB(SPATIAL_MODULI, DTAU_DF, X_sm, X_dtau, ns, ns);
+    WEB(C_TAU_JAUMANN, DTAU_DF, X_cj, X_dtau, ns, ns);
+    WEB(C_TRUESDELL, DTAU_DF, X_tr, X_dtau, ns, ns);
+    WEB(ABAQUS, C_TAU_JAUMANN, X_abq, X_cj, ns, ns);
+    WEB(C_TAU_JAUMANN, SPATIAL_MODULI, X_cj, X_sm, ns, ns);
+    WEB(SPATIAL_MODULI, C_TAU_JAUMANN, X_sm, X_cj, ns, ns);
+    WEB(ABAQUS, DTAU_DF, X_abq, X_dtau, ns, ns);
+    WEB(DTAU_DF, C_TAU_JAUMANN, X_dtau, X_cj, ns, nt);
+    WEB(DTAU_DF, ABAQUS, X_dtau, X_abq, ns, nt);
+    WEB(DTAU_DF, SPATIAL_MODULI, X_dtau, X_sm, ns, nt);
+    WEB(DSIG_DF, ABAQUS, X_dsig, X_abq, ns, nt);
+    WEB(DPK1_DF, DSIG_DF, X_dpk1, X_dsig, nt, nt);
+    WEB(DTAU_DF, DPK1_DF, X_dtau, X_dpk1, ns, nt);
+    WEB(DSIG_DF, DPK1_DF, X_dsig, X_dpk1, ns, nt);
+#undef WEB
+  } else {
+    e.ensure("derivative obligations are symbolic only", e.tru());
+  }
+}
 #define C23_N(N)                                                                        \
   VSYM_CONTRACT("stress-measures/" #N "D", (c_stress_measures<N##u>))                    \
   VSYM_CONTRACT("DS_DEGL<->DS_DC/" #N "D", (c_material_operators<N##u>))                 \
   VSYM_CONTRACT("from-DS_DEGL/" #N "D", (c_spatial_operators<N##u>))                     \
-  VSYM_CONTRACT("increment-operators/" #N "D", (c_increment_operators<N##u>))
+  VSYM_CONTRACT("increment-operators/" #N "D", (c_increment_operators<N##u>))                \
+  VSYM_CONTRACT("converter-web/" #N "D", (c_web<N##u>))
 C23_N(1)
 C23_N(2)
 #ifdef VERIF_THOROUGH
